@@ -168,4 +168,52 @@ theorem totals_fold (big : D) (k : Nat) (prev : Nat × Nat) (hbig : isNaN big = 
     have := ih (seen ++ [e]) _ (fun x hx => hall x (List.mem_cons_of_mem _ hx)) hstep.1
     simpa using this
 
+/-- `update_totals` from the empty accumulator. -/
+theorem totals_spec_aux (big : D) (k : Nat) (prev : Nat × Nat) (t : List (Entry D)) (hbig : isNaN big = false)
+    (hall : ∀ e ∈ t, isNaN e.1 = false ∧ e.1 ≤ big) :
+    (∀ j e, t[j]? = some e → Eligible k j e → (updateTotals big k prev t).min ≤ e.1) ∧
+    ((∃ j e, t[j]? = some e ∧ Eligible k j e) →
+      ∃ j e, t[j]? = some e ∧ Eligible k j e ∧ (updateTotals big k prev t).pair = (j, e.2) ∧
+        feq e.1 (updateTotals big k prev t).min = true ∧ (j ≥ k ∨ e.2 ≥ k)) := by
+  have h0 : TotInv big k prev [] { mean := 0.0, min := big, pair := prev, pairSet := false } :=
+    ⟨hbig, fun j e h => by simp at h, fun _ => ⟨rfl, rfl, rfl⟩, fun ⟨j, e, h, _⟩ => by simp at h⟩
+  have hinv := totals_fold big k prev hbig t [] _ hall h0
+  simp only [List.nil_append, List.length_nil] at hinv
+  unfold updateTotals
+  simp only []
+  refine ⟨hinv.minLe, ?_⟩
+  intro hex
+  obtain ⟨_, j, e, he, hel, hp, hq⟩ := hinv.some_seen hex
+  refine ⟨j, e, he, hel, hp, hq, ?_⟩
+  unfold Eligible at hel
+  by_cases h1 : j < k
+  · right
+    by_cases h2 : e.2 < k
+    · exact absurd ⟨h1, h2⟩ hel
+    · omega
+  · left; omega
+
+theorem exact_totals_aux (big : D) (dist : Nat → Nat → D) (n k : Nat) (prev : Nat × Nat) (hd : DistOk big dist)
+    (t : List (Entry D)) (hex : Exact dist n t)
+    (helig : ∃ j e, t[j]? = some e ∧ Eligible k j e) :
+    ∃ i m, i < n ∧ m < n ∧ m ≠ i ∧ (updateTotals big k prev t).pair = (i, m) ∧
+      feq (dist i m) (updateTotals big k prev t).min = true ∧ (i ≥ k ∨ m ≥ k) := by
+  have hbig : isNaN big = false := (not_nan_of_lt (hd.lt_big 0 0)).2
+  have hall : ∀ e ∈ t, isNaN e.1 = false ∧ e.1 ≤ big := by
+    intro e he
+    obtain ⟨i, hi, hie⟩ := List.getElem_of_mem he
+    have hin : i < n := by rw [← hex.1]; exact hi
+    obtain ⟨m, _, _, hm, _⟩ := hex.2 i hin
+    rw [List.getElem?_eq_getElem hi, hie] at hm
+    have : e = (dist i m, m) := Option.some.inj hm
+    rw [this]
+    exact ⟨hd.notNaN i m, le_of_lt (hd.lt_big i m)⟩
+  obtain ⟨j, e, he, _, hp, hq, hfree⟩ := (totals_spec_aux big k prev t hbig hall).2 helig
+  have hjn : j < n := by rw [← hex.1]; exact (List.getElem?_eq_some_iff.mp he).1
+  obtain ⟨m, hm, hmj, hme, _⟩ := hex.2 j hjn
+  rw [he] at hme
+  have : e = (dist j m, m) := Option.some.inj hme
+  subst this
+  exact ⟨j, m, hjn, hm, hmj, hp, hq, hfree⟩
+
 end Pastel
